@@ -7,7 +7,7 @@ from .state import State, dtype, key_alloc, key_card
 I = z3.IntSort()
 
 PURE_BUILTINS = {'len', 'range', 'isinstance', 'int', 'str', 'bool', 'min', 'max', 'abs', 'all', 'any', 'divmod', 'tuple',
-                 'old', 'implies', 'fresh', 'seq', 'dom', 'unchanged', 'type', 'iff', 'card', 'content', 'ite', 'is_none', 'val', 'prefix', 'cast'}
+                 'old', 'implies', 'fresh', 'seq', 'dom', 'unchanged', 'type', 'iff', 'card', 'content', 'ite', 'is_none', 'val', 'prefix', 'cast', 'upd'}
 STR_METHODS = {'isupper': BOOL, 'islower': BOOL, 'upper': STR, 'lower': STR, 'startswith': BOOL, 'endswith': BOOL,
                'count': INT, 'isidentifier': BOOL, 'isdigit': BOOL, 'strip': STR, 'lstrip': STR, 'rstrip': STR,
                'encode': STR, 'decode': STR, 'find': INT, 'isalnum': BOOL, 'isalpha': BOOL, 'replace': STR, 'join': STR}
@@ -91,6 +91,12 @@ class CallMixin:
             for recv, s in self.ev(f.value, st):
                 yield from self.call_method(recv, f.attr, e, s)
             return
+        if isinstance(f, ast.Call) and isinstance(f.func, ast.Name) and f.func.id == 'type' and len(f.args) == 1:
+            # type(x)(...): the class of x; resolved statically from the declared type (no subclassing assumed - stated in evidence)
+            tv = self.ev1(f.args[0], st) if self.is_pure(f.args[0]) else None
+            if tv is not None and not isinstance(tv, SeqV) and tv.ty.kind == 'obj':
+                yield from self.construct(tv.ty.args[0], e, st)
+                return
         # any other callee expression (e.g. table[key](x)): a first-class value
         for fv, s in self.ev(f, st):
             yield from self.call_value(fv, e, s)
@@ -113,10 +119,14 @@ class CallMixin:
     def length(self, v, st, node=None):
         if isinstance(v, SeqV): return v.n
         k = v.ty.kind
+        if k == 'opt':
+            self.check(st, z3.Not(opt_is_none(v)), 'TypeError', 'none', node)
+            return self.length(opt_val(v), st, node)
         if k == 'list': return st.llen(v.z)
         if k == 'str': return z3.Length(v.z)
         if k == 'text': return self.text_len(v.z)
         if k == 'tuple': return z3.IntVal(len(v.ty.args))
+        if k == 'sized': return v.z
         if k in ('dict', 'set'): return self.card(v, st)
         if k == 'obj':
             m = self.reg.find_method(v.ty.args[0], '__len__')
@@ -248,14 +258,42 @@ class CallMixin:
             if not isinstance(v, SeqV) and v.ty.kind == 'list':
                 sq = s.list_seq(v)
                 yield self.new_list(s, sq.elem, sq.arr, sq.n, 'copy'), s
-            elif not isinstance(v, SeqV) and v.ty.kind in ('obj', 'opt'):
-                o = opt_val(v) if v.ty.kind == 'opt' else v
-                m = self.reg.find_method(o.ty.args[0], '__copy__')
-                if m is None:
-                    _unsup('copy() of %r without __copy__ contract' % (v.ty,), e)
-                yield from self.apply_contract(m, [o], {}, s, e)
+            elif not isinstance(v, SeqV) and v.ty.kind == 'opt' and v.ty.args[0].kind == 'obj':
+                # copy(None) is None
+                sn, so = s.copy(), s
+                sn.assume(opt_is_none(v))
+                yield v, sn
+                so.assume(z3.Not(opt_is_none(v)))
+                for r, s3 in self.copy_obj(opt_val(v), so, e):
+                    yield self.coerce(r, v.ty, s3), s3
+            elif not isinstance(v, SeqV) and v.ty.kind == 'obj':
+                yield from self.copy_obj(v, s, e)
             else:
                 _unsup('copy() of %r' % (v.ty,), e)
+
+    def copy_obj(self, o, st, e):
+        m = self.reg.find_method(o.ty.args[0], '__copy__')
+        if m is not None:
+            yield from self.apply_contract(m, [o], {}, st, e)
+            return
+        # copy.copy default: a fresh instance of the same class with the same attribute values (shallow)
+        cname = o.ty.args[0]
+        d = self.reg.classes[cname]
+        r = st.new_ref(cname.lower() + '_copy', d.cid)
+        for c in self.reg.mro(cname):
+            for fname, fty in self.reg.classes[c].fields.items():
+                st.fset(r, c, fname, sort_of(fty), st.fld(o.z, c, fname, sort_of(fty)))
+            for fname, fty in self.reg.classes[c].consts.items():
+                fn = z3.Function('const_%s_%s' % (c, fname), Ref, sort_of(fty))
+                st.assume(fn(r) == fn(o.z))
+        yield SV(o.ty, r), st
+
+    def bi_deepcopy(self, e, st):
+        for v, s in self.ev(e.args[0], st):
+            c = self.reg.contracts.get('deepcopy/%s' % ('list' if (not isinstance(v, SeqV) and v.ty.kind == 'list') else 'obj'))
+            if c is None:
+                _unsup('deepcopy without builtin contract', e)
+            yield from self.apply_contract(c, [v], {}, s, e)
 
     def bi_tuple(self, e, st):
         for v, s in self.ev(e.args[0], st):
@@ -316,10 +354,20 @@ class CallMixin:
         """cast(x, ClassName): view a dynamically typed value as an instance (spec only; guard with isinstance)"""
         v = self.ev1(e.args[0], st)
         cn = e.args[1].id
+        if cn in ('int', 'str', 'bool'):
+            yield self.from_any(v, {'int': INT, 'str': STR, 'bool': BOOL}[cn]) if v.ty.kind == 'any' else v, st
+            return
         if v.ty.kind == 'any':
             yield self.from_any(v, TObj(cn)), st
         else:
             yield SV(TObj(cn), (opt_val(v) if v.ty.kind == 'opt' else v).z), st
+
+    def bi_upd(self, e, st):
+        """upd(xs, i, v): functional update of a mathematical sequence (spec only)"""
+        xs = self.seq_of(self.ev1(e.args[0], st), st)
+        i = self.ev1(e.args[1], st)
+        v = self.coerce(self.ev1(e.args[2], st), xs.elem, st)
+        yield SeqV(xs.elem, z3.Store(xs.arr, i.z, v.z), xs.n), st
 
     def bi_is_none(self, e, st):
         v = self.ev1(e.args[0], st)
@@ -452,7 +500,7 @@ class CallMixin:
         yield SV(TSet(recv.ty.args[0]), self.keyset(recv, st)), st
 
     def keyset(self, d, st):
-        r = st.new_ref('keys')
+        r = st.new_ref('keys', -3)
         st.sset(r, sort_of(d.ty.args[0]), st.ddom(d.z, sort_of(d.ty.args[0])))
         st.setH(key_card(), z3.Store(st.H(key_card()), r, self.card(d, st)))
         return r
@@ -473,7 +521,7 @@ class CallMixin:
         if e.args:
             for v, s in self.ev(e.args[0], st):
                 if not isinstance(v, SeqV) and v.ty.kind == 'set':
-                    r = s.new_ref('set')
+                    r = s.new_ref('set', -3)
                     es = sort_of(v.ty.args[0])
                     s.sset(r, es, s.smem(v.z, es))
                     s.setH(key_card(), z3.Store(s.H(key_card()), r, self.card(v, s)))
@@ -482,7 +530,7 @@ class CallMixin:
                     _unsup('set() of %r' % (v.ty,), e)
             return
         elem = getattr(e, '_elem_hint', None) or self.c.types.get('@set%d' % e.lineno) or STR
-        r = st.new_ref('set')
+        r = st.new_ref('set', -3)
         st.sset(r, sort_of(elem), z3.K(sort_of(elem), z3.BoolVal(False)))
         st.setH(key_card(), z3.Store(st.H(key_card()), r, z3.IntVal(0)))
         yield SV(TSet(elem), r), st
@@ -494,7 +542,7 @@ class CallMixin:
             mem = z3.K(es, z3.BoolVal(False))
             for v in vs:
                 mem = z3.Store(mem, self.coerce(v, elem, s).z, True)
-            r = s.new_ref('setlit')
+            r = s.new_ref('setlit', -3)
             s.sset(r, es, mem)
             s.setH(key_card(), z3.Store(s.H(key_card()), r, z3.IntVal(len(vs)) if len(vs) <= 1 else fresh('card', I)))
             yield SV(TSet(elem), r), s
@@ -505,7 +553,7 @@ class CallMixin:
         t = getattr(e, '_dict_hint', None) or self.c.types.get('@dict%d' % e.lineno)
         if t is None:
             _unsup('empty dict literal without declared type (@dict%d)' % e.lineno, e)
-        r = st.new_ref('dict')
+        r = st.new_ref('dict', -2)
         kt, vt = t.args
         st.dset(r, sort_of(kt), sort_of(vt), dom=z3.K(sort_of(kt), z3.BoolVal(False)))
         st.setH(key_card(), z3.Store(st.H(key_card()), r, z3.IntVal(0)))
@@ -527,7 +575,7 @@ class CallMixin:
         finally:
             self.specmode = was
         es = sort_of(elt.ty)
-        r = st.new_ref('setcomp')
+        r = st.new_ref('setcomp', -3)
         mem = fresh('mem', z3.ArraySort(es, z3.BoolSort()))
         y = z3.Const('y!sc', es)
         st.assume(z3.ForAll([y], z3.Select(mem, y) == z3.Exists(vars_, z3.And(rng, *conds, elt.z == y))))
@@ -586,7 +634,7 @@ class CallMixin:
         body = {ast.BitOr: z3.Or(z3.Select(a, x), z3.Select(b, x)), ast.BitAnd: z3.And(z3.Select(a, x), z3.Select(b, x)),
                 ast.Sub: z3.And(z3.Select(a, x), z3.Not(z3.Select(b, x)))}[type(op)]
         st.assume(z3.ForAll([x], z3.Select(mem, x) == body))
-        res = st.new_ref('setop')
+        res = st.new_ref('setop', -3)
         st.sset(res, es, mem)
         c = fresh('card', I)
         st.assume(c >= 0, z3.Implies(c == 0, z3.ForAll([x], z3.Not(z3.Select(mem, x)))),
